@@ -190,15 +190,65 @@ theorem fractionPhase_tot (hc : Rel c) (o : POpts) (byte : Bytes) (m : Nat) (hv 
         simp only [List.length_take, List.length_drop]; omega
   · exact ⟨Adv.refl byte hv, fun _ => rfl, Nat.zero_le _, by simp, by simp⟩
 
+/-- every digit value `parse_digits` hands to its callback is below the radix (any build mode) -/
+theorem parseDigitsLoop_digits_lt (c : Cfg) (k : Comp) (radix : Nat) :
+    ∀ (fuel : Nat) (b b' : Bytes) (ds : List Nat), parseDigitsLoop c k radix fuel b = .ok (ds, b') →
+      ∀ d ∈ ds, d < radix := by
+  intro fuel
+  induction fuel with
+  | zero => intro b b' ds h; simp [parseDigitsLoop] at h
+  | succ n ih =>
+    intro b b' ds h
+    unfold parseDigitsLoop at h
+    cases hp : peek c k b with
+    | error e => simp [hp, bind, Except.bind] at h
+    | ok r =>
+      obtain ⟨v, b1⟩ := r
+      simp only [hp, bind, Except.bind] at h
+      cases v with
+      | none =>
+        simp only [pure, Except.pure, Except.ok.injEq, Prod.mk.injEq] at h
+        obtain ⟨rfl, _⟩ := h; simp
+      | some ch =>
+        simp only at h
+        cases hdg : charToDigit ch radix with
+        | none =>
+          simp only [hdg, pure, Except.pure, Except.ok.injEq, Prod.mk.injEq] at h
+          obtain ⟨rfl, _⟩ := h; simp
+        | some d =>
+          simp only [hdg] at h
+          have hd : d < radix := by
+            unfold charToDigit at hdg
+            simp only at hdg
+            split at hdg
+            · cases hdg; assumption
+            · cases hdg
+          cases hst : iterStep c k b1 with
+          | error e => simp [hst] at h
+          | ok b2 =>
+            simp only [hst] at h
+            cases hrec : parseDigitsLoop c k radix n (Bytes.incCount c k b2) with
+            | error e => simp [hrec] at h
+            | ok r2 =>
+              obtain ⟨ds2, b3⟩ := r2
+              simp only [hrec, pure, Except.pure, Except.ok.injEq, Prod.mk.injEq] at h
+              obtain ⟨rfl, _⟩ := h
+              intro x hx
+              simp only [List.mem_cons] at hx
+              rcases hx with rfl | hx
+              · exact hd
+              · exact ih _ _ _ hrec x hx
+
 /-- what `exponentPhase` guarantees (`e0` = the implicit exponent handed in) -/
-def ExpOK (byte : Bytes) (e0 : Int) (r : Except Err ExpPart) : Prop :=
+def ExpOK (c : Cfg) (byte : Bytes) (e0 : Int) (r : Except Err ExpPart) : Prop :=
   match r with
-  | .ok ep => Adv byte ep.byte ∧ ep.exponent = e0 + ep.explicit
+  | .ok ep => Adv byte ep.byte ∧ ep.exponent = e0 + ep.explicit ∧
+      ∃ ds : List Nat, (∀ d ∈ ds, d < c.exponentRadix) ∧ ep.explicit.natAbs = foldExponent c.exponentRadix 0 ds
   | .error e => ErrOK byte.slc.length e
 
 theorem exponentPhase_tot (hc : Rel c) (hasExp : Bool) (byte : Bytes) (fr : Option (List Nat)) (e0 : Int)
     (hv : byte.index ≤ byte.slc.length) (hlt : hasExp = true → byte.index < byte.slc.length) :
-    ExpOK byte e0 (exponentPhase c hasExp byte fr e0) := by
+    ExpOK c byte e0 (exponentPhase c hasExp byte fr e0) := by
   unfold exponentPhase
   split
   · next he =>
@@ -227,10 +277,12 @@ theorem exponentPhase_tot (hc : Rel c) (hasExp : Bool) (byte : Bytes) (fr : Opti
           have ha := ha0.trans (ha1.trans ha2)
           split
           · exact ha.valid
-          · exact ⟨ha, rfl⟩
+          · refine ⟨ha, rfl, ds, parseDigitsLoop_digits_lt _ _ _ _ _ _ _ hr2, ?_⟩
+            simp only
+            split <;> simp
   · split
     · exact hv
-    · exact ⟨Adv.refl byte hv, by simp⟩
+    · exact ⟨Adv.refl byte hv, by simp, [], by simp, by simp [foldExponent]⟩
 
 theorem suffixPhase_tot (hc : Rel c) (byte : Bytes) (hv : byte.index ≤ byte.slc.length) :
     ∃ b', suffixPhase c byte = .ok b' ∧ Adv byte b' := by
